@@ -216,6 +216,8 @@ def check_confidence(w, results, counters=None):
                     top_chain.append((lv, corr))
             else:
                 bump('voted_records')
+                if len(top_chain) >= 2:
+                    bump('top_chains_of_two_or_more_levels')
                 for tlv, tcorr in top_chain:
                     bump('top_chain_records')
                     if tcorr != corr:
